@@ -25,7 +25,17 @@ def selftest():
     O.selftest()
 
 
-def run_engine(engine, refs, queries, k, same_object=False):
+def run_engine(engine, refs, queries, k, same_object=False, containers=None):
+    if containers and not same_object:
+        # "collections": the same strings as a tuple, array or Series with any index labels (positions stay ordinal)
+        r, q = G.materialise(refs, containers[0], 3), G.materialise(queries, containers[1], 5)
+        if engine == "symdel2":
+            return pyrepseq.symdel(r, max_edits=k, seqs2=q)
+        if engine == "nn2":
+            return pyrepseq.nearest_neighbor(r, max_edits=k, seqs2=q)
+        if engine == "symdeldb":
+            return nn.SymdelDB(r, k).lookup(q)
+        return nn.LookupDB(r).lookup(q, max_edits=k)
     if same_object:
         # the caller passes the very same container object as reference and as query collection
         obj = list(refs)
@@ -77,7 +87,7 @@ def check_pair(case, rec):
     want = O.neighbours_cross(queries, refs, k, O.lev)
     cl = classify(refs, queries, want)
     rec.note(case, bool(set(cl) & {"equal_positions_hit", "d0_hit", "indel_hit"}), cl + [case["engine"]])
-    got = trip(call("search", run_engine, case["engine"], refs, queries, k, bool(case.get("same_object")) and refs == queries))
+    got = trip(call("search", run_engine, case["engine"], refs, queries, k, bool(case.get("same_object")) and refs == queries, case.get("containers")))
     same_multiset("cross-set", got, want, f"engine={case['engine']} k={k} refs={len(refs)} queries={len(queries)}")
 
 
@@ -139,6 +149,9 @@ def pair_case(draw, tier="quick"):
     case = {"refs": list(refs), "queries": list(queries), "k": k, "engine": engine}
     if mode == "same" and list(refs) == list(queries):
         case["same_object"] = draw(st.booleans())
+    if draw(st.integers(0, 2)) == 0:
+        conts = ["list", "tuple", "ndarray", "series_default", "series_shifted", "series_perm", "series_str"]
+        case["containers"] = [draw(st.sampled_from(conts)), draw(st.sampled_from(conts))]
     return case
 
 
